@@ -72,6 +72,8 @@ class FileBasedTestbenchRecorder : public BaseTestbenchRecorder
 		std::unique_ptr<utils::FileSink> m_verilogTestbenchFile;
 		hlim::ClockRational m_writtenSimulationTime;
 		hlim::ClockRational m_flushIntervalStart;
+		/// Set when a time step is entered again while records made after its flush are still pending (they must stay behind that time).
+		bool m_pendingAfterEdge = false;
 
 		std::string m_testVectorFilename;
 
